@@ -130,7 +130,8 @@ package log
 //@ ghost field Log.gin map[uint64]bool
 //@ pure InList(l *Log, x *segment) bool = l.gin[ref(x)]
 //@ pure SegOK(l *Log, x *segment) bool = SegInv(x) && CrashOK(x) && (x.prev != nil ==> l.gin[ref(x.prev)] && x.prev.next == x && x.prev.prevIndex + x.prev.n == x.prevIndex && x.prev.n > 0) && (x.next != nil ==> l.gin[ref(x.next)] && x.next.prev == x) && (x.prev == nil ==> x == l.first) && (x.next == nil ==> x == l.last) && x.prevIndex + x.n < 18446744073709551615
-//@ pure LogShape(l *Log) bool = l.first != nil && l.last != nil && InList(l, l.first) && InList(l, l.last) && l.first.prev == nil && l.last.next == nil && forall(x, l.gin[x] ==> x != 0 && SegOK(l, x))
+//@ pure SegSep(x *segment, y *segment) bool = x.file != y.file && arrof(x.file.Data) != arrof(y.file.Data)
+//@ pure LogShape(l *Log) bool = l.first != nil && l.last != nil && InList(l, l.first) && InList(l, l.last) && l.first.prev == nil && l.last.next == nil && forall(x, l.gin[x] ==> x != 0 && SegOK(l, x)) && forall(x, y, l.gin[x] && l.gin[y] && x != y ==> SegSep(x, y))
 //@ pure LogPrev(l *Log) uint64 = ite(l.index == nil, l.first.prevIndex, l.index[0])
 //@ pure LogLast(l *Log) uint64 = ite(l.index == nil, l.last.prevIndex + l.last.n, l.index[1])
 //@ pure SegHolds(x *segment, i uint64, b []byte) bool = x.prevIndex < i && i <= x.prevIndex + x.n && arrof(b) == arrof(x.file.Data) && base(b) == base(x.file.Data) + soff(x, i - x.prevIndex) && len(b) == soff(x, i - x.prevIndex + 1) - soff(x, i - x.prevIndex)
@@ -150,7 +151,7 @@ package log
 //@   requires [C13.segment-range] i <= LogLast(l)
 //@   ensures [C13.segment] (i <= LogPrev(l)) == (result0 == nil)
 //@   ensures [C13.segment-holds] result0 != nil ==> InList(l, result0) && result0.prevIndex < i && i <= result0.prevIndex + result0.n
-//@   loop 1 invariant s != nil && InList(l, s) && i <= s.prevIndex + s.n && s.prevIndex >= l.first.prevIndex
+//@   loop 1 invariant s != nil && InList(l, s) && i <= s.prevIndex + s.n
 
 //@ func (*Log).Contains
 //@   requires LogShape(l) && l.index == nil
@@ -175,7 +176,6 @@ package log
 
 //@ func (*Log).CommitN
 //@   requires LogShape(l)
-//@   modifies segment.synced, elems(uint8), File.gdur
-//@   ensures [C14.commitn-last] result0 == nil && l.last.prevIndex < n ==> hdrDur(l.last) == l.last.n && hdrMem(l.last) == l.last.n
-//@   ensures [C14.commitn-keeps] LogShape(l)
-//@   loop 1 invariant LogShape(l) && (s != nil ==> InList(l, s)) && (s != l.last && l.last.prevIndex < n ==> hdrDur(l.last) == l.last.n && hdrMem(l.last) == l.last.n)
+//@   modifies segment.synced, elems(uint8), mmap.File.gdur
+//@   ensures [C14.commitn-last] result0 == nil && l.last.prevIndex < n ==> hdrDur(l.last) == l.last.n && hdrMem(l.last) == l.last.n && !(l.last.synced < l.last.n)
+//@   loop 1 unroll 2
